@@ -40,12 +40,13 @@ struct ECfg { cap: u64, group: usize, workers: usize }
 enum Item { Op(Op), Restart }
 
 #[derive(Clone, Debug, Default)]
-struct PCase { program: Program, items: Vec<Item> }
+struct PCase { program: Program, items: Vec<Item>, /** C08: after each crash point the history is continued (edit, query all, edit, query all) instead of only queried */ cont: bool }
 impl PCase {
     fn render(&self) -> String {
         let mut s = format!("case {}{}\n", self.program.nodes.len(), if self.program.has_unordered() { " unordered" } else { "" });
         for l in self.program.render_lines() { s.push_str(&l); s.push('\n'); }
         for it in &self.items { match it { Item::Op(o) => s.push_str(&o.render()), Item::Restart => s.push_str("restart") } s.push('\n'); }
+        if self.cont { s.push_str("continue-after-crash\n"); }
         s
     }
     fn parse(text: &str) -> PCase {
@@ -55,12 +56,13 @@ impl PCase {
             if line.is_empty() || line.starts_with("case") || line.starts_with('#') || line.starts_with("cfg") || line.starts_with("crash") || line == "shutdown" { continue; }
             if line.starts_with("node") { c.program.parse_node_line(line); }
             else if line == "restart" { c.items.push(Item::Restart); }
+            else if line == "continue-after-crash" { c.cont = true; }
             else { c.items.push(Item::Op(Op::parse(line))); }
         }
         c
     }
     fn ops(&self) -> Vec<Op> { self.items.iter().filter_map(|i| if let Item::Op(o) = i { Some(o.clone()) } else { None }).collect() }
-    fn without_restarts(&self) -> PCase { PCase { program: self.program.clone(), items: self.items.iter().filter(|i| **i != Item::Restart).cloned().collect() } }
+    fn without_restarts(&self) -> PCase { PCase { program: self.program.clone(), items: self.items.iter().filter(|i| **i != Item::Restart).cloned().collect(), cont: self.cont } }
 }
 
 type Eng = Engine<PCfg>;
@@ -193,7 +195,73 @@ fn insert_restarts(rng: &mut Rng, c: &Case) -> PCase {
     }
     if !any { let at = 1 + rng.below(items.len() as u64 - 1) as usize; items.insert(at, Item::Restart); }
     if rng.chance(1, 6) { items.insert(0, Item::Restart); }
-    PCase { program: c.program.clone(), items }
+    PCase { program: c.program.clone(), items, cont: false }
+}
+
+
+// ------------------------------------------------------------------------------------------
+// "wide fan-in": one key with N direct dependents, N around the size at which the storage layer stops
+// holding a key-of-set entry (here: the backward-edge set of that key) in memory and streams it from
+// the store instead.  Run by every check (shard 0), a few instances per run.
+// ------------------------------------------------------------------------------------------
+
+#[derive(Clone, Copy, Debug, PartialEq, Eq)]
+enum Hub { Input, Firewall, Normal }
+
+/// key 0: input; hub = key 0 itself, or key 1 = a firewall / normal node over key 0; `n` readers of the hub
+fn fanin_program(hub: Hub, n: u32) -> (Program, Vec<u32>) {
+    let mut nodes = vec![NodeDef { kind: Kind::Input, default: 0, expr: Expr::Const(0) }];
+    let h = match hub {
+        Hub::Input => 0,
+        Hub::Firewall => { nodes.push(NodeDef { kind: Kind::Firewall, default: kind_default(Kind::Firewall), expr: Expr::Add(Box::new(Expr::Read(0)), Box::new(Expr::Const(100))) }); 1 }
+        Hub::Normal => { nodes.push(NodeDef { kind: Kind::Normal, default: kind_default(Kind::Normal), expr: Expr::Add(Box::new(Expr::Read(0)), Box::new(Expr::Const(100))) }); 1 }
+    };
+    let first = nodes.len() as u32;
+    for i in 0..n { nodes.push(NodeDef { kind: Kind::Normal, default: kind_default(Kind::Normal), expr: Expr::Add(Box::new(Expr::Read(h)), Box::new(Expr::Const((i % 7) as i64))) }); }
+    (Program { nodes }, (first..first + n).collect())
+}
+
+/// the fan-in sizes of a run: both sides of every power of two at which a set representation could change
+/// (the threshold is the code's business: sizes are spread over 1020..1030 in every run, plus larger ones)
+fn fanin_sizes(rng: &mut Rng, thorough: bool) -> Vec<u32> {
+    let mut v = vec![1025 + rng.below(6) as u32, 1020 + rng.below(5) as u32, 1100];
+    if thorough { v.extend([1023, 1024, 1025, 1026, 1027 + rng.below(4) as u32, 2100, 33, 32]); }
+    v
+}
+
+fn fanin_cfg(rng: &mut Rng, i: usize) -> ECfg {
+    ECfg { cap: [1u64, 64, 1 << 18, 8][i % 4], group: *rng.pick(&[1usize, 5, 1_000_000]), workers: 1 + rng.below(2) as usize }
+}
+
+/// C07: set, compute all readers, restart, edit, query all readers, [restart,] edit again, query all
+fn fanin_c07_cases(rng: &mut Rng, thorough: bool) -> Vec<(PCase, ECfg)> {
+    let mut out = vec![];
+    for (i, n) in fanin_sizes(rng, thorough).into_iter().enumerate() {
+        let hub = [Hub::Input, Hub::Firewall, Hub::Normal][(i + rng.below(3) as usize) % 3];
+        let (program, readers) = fanin_program(hub, n);
+        let mut shuffled = readers.clone(); rng.shuffle(&mut shuffled);
+        let mut items = vec![Item::Op(Op::Session(vec![Write::Set(0, 1)])), Item::Op(Op::Round(readers.clone())), Item::Restart,
+            Item::Op(Op::Session(vec![Write::Set(0, 2)])), Item::Op(Op::Round(shuffled))];
+        if rng.chance(1, 2) { items.push(Item::Restart); }
+        items.push(Item::Op(Op::Session(vec![Write::Set(0, 3)])));
+        items.push(Item::Op(Op::Round(readers.iter().rev().copied().collect())));
+        out.push((PCase { program, items, cont: false }, fanin_cfg(rng, i)));
+    }
+    out
+}
+
+/// C08: set, compute all readers; then for a few prefixes of the commit log: reopen, edit, query all, edit, query all
+fn fanin_c08_cases(rng: &mut Rng, thorough: bool) -> Vec<(PCase, ECfg)> {
+    let mut out = vec![];
+    let mut sizes = fanin_sizes(rng, thorough);
+    if !thorough { sizes.truncate(2); }
+    for (i, n) in sizes.into_iter().enumerate() {
+        let hub = [Hub::Firewall, Hub::Input, Hub::Normal][(i + rng.below(3) as usize) % 3];
+        let (program, readers) = fanin_program(hub, n);
+        let items = vec![Item::Op(Op::Session(vec![Write::Set(0, 1)])), Item::Op(Op::Round(readers))];
+        out.push((PCase { program, items, cont: true }, fanin_cfg(rng, i + 1)));
+    }
+    out
 }
 
 const CAPS: [u64; 4] = [1, 2, 8, 64];
@@ -220,13 +288,22 @@ fn compare_runs(case: &PCase, a: &RunOut, b: &RunOut) -> Option<(String, String)
     if let Some(m) = &b.crash { if a.crash.is_none() { return Some(("C07:crash-with-restart".into(), format!("the run with restarts stopped ({m}) after {} ops; the run without restarts completed", b.outs.len()))); } }
     let ops = case.ops();
     for (i, (x, y)) in a.outs.iter().zip(&b.outs).enumerate() {
-        if x.vals != y.vals { return Some(("C07:value-differs".into(), format!("op {i} `{}`: with restarts {:?}, without {:?}", ops[i].render(), y.vals, x.vals))); }
+        if x.vals != y.vals {
+            let opr = ops[i].render();
+            let what = match &ops[i] {
+                Op::Round(ks) if ks.len() > 12 => { let d: Vec<String> = ks.iter().zip(x.vals.iter().zip(&y.vals)).filter(|(_, (a, b))| a != b).take(5).map(|(k, (a, b))| format!("key {k}: {b} with restarts, {a} without")).collect(); format!("{} of {} queried keys differ: {}", ks.iter().zip(x.vals.iter().zip(&y.vals)).filter(|(_, (a, b))| a != b).count(), ks.len(), d.join("; ")) }
+                _ => format!("with restarts {:?}, without {:?}", y.vals, x.vals),
+            };
+            return Some(("C07:value-differs".into(), format!("op {i} `{}`: {what}", if opr.len() > 60 { format!("{}…", &opr[..60]) } else { opr })));
+        }
         let (ex, ey): (Vec<String>, Vec<String>) = (x.execs.iter().map(exec_key).collect(), y.execs.iter().map(exec_key).collect());
         if ex != ey {
             let (kx, ky): (Vec<u32>, Vec<u32>) = (x.execs.iter().map(|e| e.key).collect(), y.execs.iter().map(|e| e.key).collect());
             let more = ky.len() > kx.len();
+            let opr = ops[i].render();
+            let show = |v: &Vec<u32>| if v.len() > 24 { format!("{} invocations", v.len()) } else { format!("{v:?}") };
             return Some((if kx == ky { "C07:exec-reads-differ".into() } else if more { "C07:exec-more-after-restart".into() } else { "C07:exec-differs".into() },
-                format!("op {i} `{}`: executor invocations with restarts {:?}, without {:?}", ops[i].render(), ky, kx)));
+                format!("op {i} `{}`: executor invocations with restarts {}, without {}", if opr.len() > 60 { format!("{}…", &opr[..60]) } else { opr }, show(&ky), show(&kx))));
         }
     }
     if a.crash.is_some() != b.crash.is_some() || a.outs.len() != b.outs.len() { return Some(("C07:crash-differs".into(), format!("without restarts: {:?} after {} ops; with: {:?} after {} ops", a.crash, a.outs.len(), b.crash, b.outs.len()))); }
@@ -430,7 +507,7 @@ mod rocks {
                             let mut same = false;
                             for j in lo..hi {
                                 let mut items: Vec<Item> = ops[..=j].iter().cloned().map(Item::Op).collect(); items.push(Item::Op(Op::Round(ks.clone())));
-                                let rr = super::run_items(&PCase { program: case.program.clone(), items }, ECfg { cap: 64, group: 1, workers: 1 }, &MemStore::new(1, false));
+                                let rr = super::run_items(&PCase { program: case.program.clone(), items, cont: false }, ECfg { cap: 64, group: 1, workers: 1 }, &MemStore::new(1, false));
                                 if rr.crash.is_none() && rr.outs.last().map(|o| &o.vals) == Some(&vals) { same = true; break; }
                             }
                             if same { *dist.entry(format!("{what}_value_failures_shared_with_a_never_crashed_engine")).or_insert(0) += 1; }
@@ -525,6 +602,119 @@ mod f8 {
     }
 }
 
+
+// ------------------------------------------------------------------------------------------
+// C08, overlapping session: readers re-executing and held inside their executors while the next
+// session is requested.  Every prefix of the commit log is reopened and judged by the from-scratch
+// oracle for the inputs found in that prefix, and the log is compared, commit by commit, with the
+// log of the same logical history run without the overlap (= the logical batches in the order in
+// which they were published in memory).
+// ------------------------------------------------------------------------------------------
+mod overlap8 {
+    use super::*;
+    use qbice::{Decode, Encode, Query, StableHash, TrackedEngine, executor::Executor, query::ExecutionStyle};
+
+    #[derive(Debug, Clone, Copy, PartialEq, Eq, PartialOrd, Ord, Hash, StableHash, Encode, Decode, Identifiable)]
+    pub struct OVar(pub u32);
+    impl Query for OVar { type Value = i64; }
+    #[derive(Debug, Clone, Copy, PartialEq, Eq, PartialOrd, Ord, Hash, StableHash, Encode, Decode, Identifiable)]
+    pub struct OFw(pub u32);
+    impl Query for OFw { type Value = i64; }
+    #[derive(Debug, Clone, Copy, PartialEq, Eq, PartialOrd, Ord, Hash, StableHash, Encode, Decode, Identifiable)]
+    pub struct OReader(pub u32);
+    impl Query for OReader { type Value = i64; }
+
+    #[derive(Clone, Copy, Debug)]
+    pub struct Variant { pub readers: u32, pub same_input: bool, pub firewall: bool, pub group: usize }
+
+    /// firewall over `OVar(0)`: value + 100
+    pub struct FwEx;
+    impl<C: Config> Executor<OFw, C> for FwEx {
+        async fn execute(&self, _q: &OFw, te: &TrackedEngine<C>) -> i64 { te.query(&OVar(0)).await + 100 }
+        fn execution_style() -> ExecutionStyle { ExecutionStyle::Firewall }
+    }
+    /// reader j: 10 * (OVar(0) or OFw(0)) + j; waits at its gate after the read when armed
+    pub struct ReaderEx { pub firewall: bool, pub armed: std::sync::Mutex<BTreeSet<u32>>, pub reached: tokio::sync::Notify, pub gates: Vec<tokio::sync::Notify> }
+    impl<C: Config> Executor<OReader, C> for ReaderEx {
+        async fn execute(&self, q: &OReader, te: &TrackedEngine<C>) -> i64 {
+            let v = if self.firewall { te.query(&OFw(0)).await } else { te.query(&OVar(0)).await };
+            let held = self.armed.lock().unwrap().remove(&q.0);
+            if held { self.reached.notify_one(); self.gates[q.0 as usize].notified().await; }
+            10 * v + q.0 as i64
+        }
+    }
+    pub fn expected(v: Variant, var0: i64, j: u32) -> i64 { 10 * (if v.firewall { var0 + 100 } else { var0 }) + j as i64 }
+
+    async fn open(store: &Arc<MemStore>, v: Variant) -> (Arc<Eng>, Arc<ReaderEx>) {
+        let factory = DbBackedFactory::builder().configuration(Configuration::builder().cache_capacity(64).serialization_workers(1).build()).db_factory(KvMemFactory(store.clone())).build();
+        let mut engine = Engine::<PCfg>::new_with(Plugin::default(), factory, SeededStableHasherBuilder::new(0)).await.unwrap();
+        let ex = Arc::new(ReaderEx { firewall: v.firewall, armed: Default::default(), reached: Default::default(), gates: (0..v.readers).map(|_| tokio::sync::Notify::new()).collect() });
+        engine.register_executor::<OReader, _>(ex.clone());
+        engine.register_executor::<OFw, _>(Arc::new(FwEx));
+        (Arc::new(engine), ex)
+    }
+
+    /// runs the history (overlapping or not) on a fresh logging store; returns its commit log
+    pub fn history(v: Variant, overlap: bool) -> Result<Vec<Commit>, String> {
+        let rt = tokio::runtime::Builder::new_current_thread().enable_all().build().unwrap();
+        let r = std::panic::catch_unwind(std::panic::AssertUnwindSafe(|| rt.block_on(async {
+            let store = MemStore::new(v.group, true);
+            let (engine, ex) = open(&store, v).await;
+            { let mut s = engine.input_session().await; s.set_input(OVar(0), 1).await; s.set_input(OVar(1), 5).await; s.commit().await; }
+            { let te = engine.clone().tracked().await; for j in 0..v.readers { assert_eq!(te.query(&OReader(j)).await, expected(v, 1, j)); } }
+            { let mut s = engine.input_session().await; s.set_input(OVar(0), 2).await; s.commit().await; }
+            let mut held = vec![];
+            if overlap {
+                for j in 0..v.readers {
+                    ex.armed.lock().unwrap().insert(j);
+                    let e2 = engine.clone();
+                    held.push(tokio::spawn(async move { let te = e2.tracked().await; let x = te.query(&OReader(j)).await; drop(te); x }));
+                    ex.reached.notified().await;
+                }
+            } else {
+                for j in 0..v.readers { let te = engine.clone().tracked().await; assert_eq!(te.query(&OReader(j)).await, expected(v, 2, j)); }
+            }
+            // the next session is requested while the readers are still inside their executors
+            let e3 = engine.clone();
+            let same = v.same_input;
+            let writer = tokio::spawn(async move { let mut s = e3.input_session().await; if same { s.set_input(OVar(0), 3).await; } else { s.set_input(OVar(1), 7).await; } s.commit().await; });
+            for _ in 0..20 { tokio::task::yield_now().await; }
+            for (j, h) in held.into_iter().enumerate() { ex.gates[j].notify_one(); let x = h.await.unwrap(); assert_eq!(x, expected(v, 2, j as u32)); }
+            writer.await.unwrap();
+            shutdown(engine);
+            store.log()
+        })));
+        drop(rt);
+        r.map_err(|p| format!("panic: {}", panic_msg(&p)))
+    }
+
+    /// the inputs `OVar(i)` a store shows
+    pub fn inputs_of(t: &Tables) -> BTreeMap<u32, i64> {
+        let (mut names, mut vals): (BTreeMap<String, u32>, BTreeMap<String, i64>) = Default::default();
+        for (_, (_, d)) in &t.wide { if let Some(d) = d {
+            if d.value_type.contains("QueryInput<") && d.value_type.contains("OVar>") { if let Some(i) = d.value.trim_start_matches("QueryInput(OVar(").trim_end_matches("))").parse().ok() { names.insert(d.key.clone(), i); } }
+            if d.value_type.contains("QueryResult<") && d.value_type.contains("OVar>") { if let Some(x) = d.value.trim_start_matches("QueryResult(").trim_end_matches(')').parse().ok() { vals.insert(d.key.clone(), x); } }
+        } }
+        names.into_iter().filter_map(|(k, i)| vals.get(&k).map(|v| (i, *v))).collect()
+    }
+
+    /// reopen on `store`, query every reader
+    pub fn reopen(store: &Arc<MemStore>, v: Variant) -> Result<Vec<i64>, String> {
+        let rt = tokio::runtime::Builder::new_current_thread().enable_all().build().unwrap();
+        let r = std::panic::catch_unwind(std::panic::AssertUnwindSafe(|| rt.block_on(async {
+            let (engine, _ex) = open(store, v).await;
+            let te = engine.clone().tracked().await;
+            let mut out = vec![];
+            for j in 0..v.readers { out.push(te.query(&OReader(j)).await); }
+            drop(te);
+            shutdown(engine);
+            out
+        })));
+        drop(rt);
+        r.map_err(|p| format!("panic: {}", panic_msg(&p)))
+    }
+}
+
 fn main() {
     std::panic::set_hook(Box::new(|_| {}));
     let a = args();
@@ -553,6 +743,7 @@ fn main() {
                 let mut fs: Vec<_> = rd.flatten().map(|e| e.path()).filter(|p| p.file_name().unwrap().to_string_lossy().starts_with("C07-")).collect(); fs.sort();
                 for f in fs { let text = std::fs::read_to_string(f).unwrap(); cases.push((PCase::parse(&text), parse_cfg(&text).unwrap_or(ECfg { cap: 1, group: 1, workers: 1 }))); }
             }
+            if !a.rest.iter().any(|x| x == "--no-corpus") { let mut r2 = Rng::new(a.seed ^ 0xfa9); cases.extend(fanin_c07_cases(&mut r2, thorough)); }
             for i in 0..n_cases {
                 let c = gen_case(&mut rng, i, thorough && i % 3 == 0, true);
                 let pc = insert_restarts(&mut rng, &c);
@@ -566,6 +757,7 @@ fn main() {
             bump(&mut dist, &format!("cases_cache_capacity_{}", cfg.cap), 1);
             bump(&mut dist, &format!("cases_group_{}", if cfg.group > 100 { "all_at_shutdown".to_string() } else { cfg.group.to_string() }), 1);
             bump(&mut dist, "restarts", case.items.iter().filter(|i| **i == Item::Restart).count() as u64);
+            if case.program.nodes.len() > 200 { bump(&mut dist, "wide_fan_in_cases", 1); bump(&mut dist, &format!("wide_fan_in_readers_{}", case.program.nodes.len() - if case.program.nodes[1].expr == Expr::Add(Box::new(Expr::Read(0)), Box::new(Expr::Const(100))) { 2 } else { 1 }), 1); }
             if case.program.nodes.iter().any(|n| n.kind == Kind::Firewall) { bump(&mut dist, "cases_with_firewall", 1); }
             if case.program.nodes.iter().any(|n| n.kind == Kind::Projection) { bump(&mut dist, "cases_with_projection", 1); }
             if case.program.nodes.iter().any(|n| n.kind == Kind::External) { bump(&mut dist, "cases_with_external", 1); }
@@ -610,7 +802,7 @@ fn main() {
                     t
                 };
                 let mut pushed = false;
-                if failures.iter().filter(|f| f.sig == sig).count() < 2 {
+                if failures.iter().filter(|f| f.sig == sig).count() < 2 && case.program.nodes.len() <= 200 {
                     let small = shrink_c07(case, *cfg, &sig);
                     let (sa, sb) = (run_items(&small.without_restarts(), *cfg, &MemStore::new(cfg.group, false)), run_items(&small, *cfg, &MemStore::new(cfg.group, false)));
                     if let Some((s2, d)) = compare_runs(&small, &sa, &sb) { if s2 == sig {
@@ -635,9 +827,10 @@ fn main() {
                 let mut fs: Vec<_> = rd.flatten().map(|e| e.path()).filter(|p| p.file_name().unwrap().to_string_lossy().starts_with("C08-")).collect(); fs.sort();
                 for f in fs { let text = std::fs::read_to_string(f).unwrap(); cases.push((PCase::parse(&text), parse_cfg(&text).unwrap_or(ECfg { cap: 1, group: 1, workers: 1 }))); }
             }
+            if !a.rest.iter().any(|x| x == "--no-corpus") { let mut r2 = Rng::new(a.seed ^ 0xfa9); cases.extend(fanin_c08_cases(&mut r2, thorough)); }
             for i in 0..n_cases {
                 let c = gen_case(&mut rng, i, thorough && i % 2 == 0, false);
-                let pc = if rng.chance(1, 3) { insert_restarts(&mut rng, &c) } else { PCase { program: c.program.clone(), items: c.ops.iter().cloned().map(Item::Op).collect() } };
+                let pc = if rng.chance(1, 3) { insert_restarts(&mut rng, &c) } else { PCase { program: c.program.clone(), items: c.ops.iter().cloned().map(Item::Op).collect(), cont: false } };
                 let mut cfg = pick_cfg(&mut rng);
                 if !thorough && cfg.group > 100 && rng.chance(1, 2) { cfg.group = 1; }
                 cases.push((pc, cfg));
@@ -677,9 +870,60 @@ fn main() {
             // sessions: index of the op that is the t-th session
             let sess_idx: Vec<usize> = ops.iter().enumerate().filter(|(_, o)| matches!(o, Op::Session(_))).map(|(i, _)| i).collect();
             let n = case.program.nodes.len() as u32;
-            let boundaries: Vec<usize> = if log.len() <= 40 || thorough { (0..=log.len()).collect() } else { let mut v: Vec<usize> = (0..=log.len()).collect(); rng.shuffle(&mut v); v.truncate(40); v.sort(); v };
+            let big = case.program.nodes.len() > 200;
+            let boundaries: Vec<usize> = if big {
+                // wide fan-in: the full log (everything computed, then the crash), and a few earlier cuts
+                let mut v: Vec<usize> = (1..log.len()).collect(); rng.shuffle(&mut v); v.truncate(if thorough { 4 } else { 2 }); v.push(log.len()); v.sort(); v.dedup(); v
+            } else if log.len() <= 40 || thorough { (0..=log.len()).collect() } else { let mut v: Vec<usize> = (0..=log.len()).collect(); rng.shuffle(&mut v); v.truncate(40); v.sort(); v };
+            if big { bump(&mut dist, "wide_fan_in_cases", 1); }
             for p in boundaries {
-                let pstore = MemStore::from_prefix(&log, p, 1, true);
+                let pstore = MemStore::from_prefix(&log, p, if case.cont { cfg.group } else { 1 }, true);
+                if case.cont {
+                    // the history is CONTINUED on the reopened engine: edit the first input, query everything, twice
+                    let logical: u64 = log[..p].iter().map(|c| c.logical).sum();
+                    let ts = timestamp_of(&pstore.tables());
+                    let t = ts.unwrap_or(0) as usize;
+                    bump(&mut dist, "crash_points", 1); bump(&mut dist, "crash_points_with_continuation", 1);
+                    if t == 0 || t > sess_idx.len() { continue; }
+                    let mut truth = exp.truths[sess_idx[t - 1]].0.clone();
+                    let Some((&ik, &iv)) = truth.inputs.iter().next() else { continue };
+                    let mut cont_ops: Vec<Op> = vec![];
+                    let mut cont_exp: Vec<String> = vec![];
+                    for step in 1..=2i64 {
+                        cont_ops.push(Op::Session(vec![Write::Set(ik, iv + step)])); cont_exp.push("Updated".into());
+                        truth.inputs.insert(ik, iv + step);
+                        let mut ks: Vec<u32> = (0..n).filter(|k| defined(&case.program, &truth, *k)).collect();
+                        if step == 2 { ks.reverse(); }
+                        let mut sc = Scratch::new(&case.program, &truth);
+                        cont_exp.push(ks.iter().map(|k| sc.value(*k).unwrap().to_string()).collect::<Vec<_>>().join(" "));
+                        cont_ops.push(Op::Round(ks));
+                    }
+                    let rr = run_items(&PCase { program: case.program.clone(), items: cont_ops.iter().cloned().map(Item::Op).collect(), cont: false }, *cfg, &pstore);
+                    out.line(&format!("crash {logical}"), &format!("crashed {}", ts.map(|x| x.to_string()).unwrap_or("none".into()))); exp_lines.push(format!("crashed {t}"));
+                    let mut post = String::new();
+                    for (j, op) in cont_ops.iter().enumerate() {
+                        post.push_str(&op.render()); post.push('\n');
+                        if j < rr.outs.len() {
+                            out.line(&op.render(), &render_out(&rr.outs[j], with_execs)); exp_lines.push(cont_exp[j].clone());
+                            bump(&mut dist, "values_checked_after_crash", rr.outs[j].vals.len() as u64);
+                            if rr.outs[j].vals.join(" ") != cont_exp[j] {
+                                let got = &rr.outs[j].vals; let want: Vec<&str> = cont_exp[j].split(' ').collect();
+                                let wrong: Vec<String> = if let Op::Round(ks) = op { ks.iter().zip(got.iter().zip(&want)).filter(|(_, (x, y))| x.as_str() != **y).take(4).map(|(k, (x, y))| format!("key {k} = {x} expected {y}")).collect() } else { vec![format!("{got:?} expected {want:?}")] };
+                                failures.push(Failure { sig: "C08:value-after-continuation".into(),
+                                    desc: format!("crash keeping {p} of {} commits ({logical} logical batches, timestamp {t}); reopened, then `{}`: {}", log.len(), cont_ops[..=j].iter().map(|o| { let r = o.render(); if r.len() > 40 { format!("{}…", &r[..40]) } else { r } }).collect::<Vec<_>>().join("; "), wrong.join(", ")),
+                                    case: format!("cfg cap={} group={} workers={}\n{}", cfg.cap, cfg.group, cfg.workers, text) });
+                                break;
+                            }
+                        } else {
+                            let m = rr.crash.clone().unwrap_or_default();
+                            out.line(&op.render(), &format!("crash {}", if m.starts_with("hang") { "hang" } else { "panic" })); exp_lines.push(cont_exp[j].clone());
+                            failures.push(Failure { sig: format!("C08:continuation-{}", if m.starts_with("hang") { "hang" } else { "panic" }), desc: format!("crash keeping {p} of {} commits; reopened; `{}` failed: {}", log.len(), op.render().chars().take(60).collect::<String>(), m.chars().take(200).collect::<String>()), case: format!("cfg cap={} group={} workers={}\n{}", cfg.cap, cfg.group, cfg.workers, text) });
+                            break;
+                        }
+                    }
+                    let _ = post;
+                    continue;
+                }
                 let logical: u64 = log[..p].iter().map(|c| c.logical).sum();
                 let ts = timestamp_of(&pstore.tables());
                 bump(&mut dist, "crash_points", 1);
@@ -722,7 +966,7 @@ fn main() {
                     for j in lo..hi {
                         let mut items: Vec<Item> = ops[..=j].iter().cloned().map(Item::Op).collect();
                         items.push(Item::Op(Op::Round(ks.clone())));
-                        let rr = run_items(&PCase { program: case.program.clone(), items }, *cfg, &MemStore::new(cfg.group, false));
+                        let rr = run_items(&PCase { program: case.program.clone(), items, cont: false }, *cfg, &MemStore::new(cfg.group, false));
                         if rr.crash.is_none() && rr.outs.last().map(|o| &o.vals) == Some(&co.vals) { same_as_uncrashed = true; break; }
                     }
                     let bad = ks.iter().zip(co.vals.iter().zip(&expv)).find(|(_, (x, y))| x != y).unwrap();
@@ -733,6 +977,56 @@ fn main() {
                 }
             }
         }
+    } else if mode == "overlap8" {
+        // 1–3 held readers x the session writes the same / another input x with / without a firewall between
+        let groups: Vec<usize> = if thorough { vec![1, 2, 3, 1_000_000] } else { vec![1] };
+        for group in groups { for readers in 1..=3u32 { for same_input in [true, false] { for firewall in [false, true] {
+            let v = overlap8::Variant { readers, same_input, firewall, group };
+            evals += 1;
+            let name = format!("overlap8 readers={readers} session-writes={} firewall={firewall} group={group}", if same_input { "same-input" } else { "other-input" });
+            let run = |overlap: bool| { let (tx, rx) = std::sync::mpsc::channel(); std::thread::spawn(move || { let _ = tx.send(overlap8::history(v, overlap)); }); rx.recv_timeout(std::time::Duration::from_secs(30)).unwrap_or_else(|_| Err("hang".into())) };
+            let (lo, ls) = (run(true), run(false));
+            let (lo, ls) = match (lo, ls) { (Ok(a), Ok(b)) => (a, b), (a, b) => { failures.push(Failure { sig: "C08:overlap:history-failed".into(), desc: format!("{name}: overlapped {:?} / sequential {:?}", a.err(), b.err()), case: name.clone() }); continue; } };
+            bump(&mut dist, "overlap_histories", 1); bump(&mut dist, "overlap_commits", lo.len() as u64);
+            // (1) structure: the store after k commits is the fold of the first k logical batches in the order in which they
+            //     were published in memory — the same logical history without the overlap publishes the same batches in that
+            //     order, so the two logs must agree commit by commit (compared as store contents, byte for byte)
+            if group == 1 {
+                let (mut ta, mut tb) = (Tables::default(), Tables::default());
+                let mut bad: Option<String> = None;
+                if lo.len() != ls.len() { bad = Some(format!("{} commits with the overlap, {} without", lo.len(), ls.len())); }
+                for k in 0..lo.len().min(ls.len()) {
+                    ta.apply(&lo[k]); tb.apply(&ls[k]);
+                    if ta.content() != tb.content() {
+                        let (da, db) = (describe_tables(&ta), describe_tables(&tb));
+                        let only_a: Vec<&String> = da.difference(&db).take(3).collect(); let only_b: Vec<&String> = db.difference(&da).take(3).collect();
+                        bad = Some(format!("after {} commits the store differs from the fold of the first {} logical batches in publication order; only with the overlap: {:?}; only in publication order: {:?}", k + 1, k + 1, only_a.iter().map(|x| x.chars().take(140).collect::<String>()).collect::<Vec<_>>(), only_b.iter().map(|x| x.chars().take(140).collect::<String>()).collect::<Vec<_>>()));
+                        break;
+                    }
+                }
+                bump(&mut dist, "overlap_prefixes_compared_with_publication_order", lo.len().min(ls.len()) as u64);
+                if let Some(b) = bad { failures.push(Failure { sig: "C08:overlap:store-is-not-a-prefix-of-the-publications".into(), desc: format!("{name}: {b}"), case: name.clone() }); }
+            }
+            // (2) every prefix reopened: from-scratch values for the inputs found in it
+            for k in 0..=lo.len() {
+                let ps = MemStore::from_prefix(&lo, k, 1, true);
+                let inputs = overlap8::inputs_of(&ps.tables());
+                let Some(&var0) = inputs.get(&0) else { continue };
+                let (tx, rx) = std::sync::mpsc::channel(); let ps2 = ps.clone();
+                std::thread::spawn(move || { let _ = tx.send(overlap8::reopen(&ps2, v)); });
+                bump(&mut dist, "overlap_prefixes_reopened", 1);
+                match rx.recv_timeout(std::time::Duration::from_secs(30)).unwrap_or_else(|_| Err("hang".into())) {
+                    Err(m) => { failures.push(Failure { sig: "C08:overlap:reopen-failed".into(), desc: format!("{name}: first {k} of {} commits: {m}", lo.len()), case: name.clone() }); break; }
+                    Ok(vals) => {
+                        let want: Vec<i64> = (0..readers).map(|j| overlap8::expected(v, var0, j)).collect();
+                        if vals != want {
+                            failures.push(Failure { sig: "C08:overlap:value".into(), desc: format!("{name}: the engine reopened on the first {k} of {} commits shows inputs {:?} and answers the readers {:?}, from-scratch {:?}", lo.len(), inputs, vals, want), case: name.clone() });
+                            break;
+                        }
+                    }
+                }
+            }
+        } } } }
     } else if mode == "f8" {
         // sequential control first (no overlap), then the overlapping session
         for overlap in [false, true] {
@@ -821,9 +1115,9 @@ fn main() {
     let mut rep = String::from("{");
     rep.push_str(&format!("\"evaluations\":{evals},\"distinct_nontrivial\":{},", distinct.len()));
     rep.push_str(&format!("\"rule\":{},", jstr(if mode.starts_with("rocks") { "the C07 / C08 oracles on the real RocksDB backend in temp dirs: histories with restarts vs without (rocks-c07); reopen after the clean end and after SIGKILL of a child process at a seeded instant (rocks-c08): inputs read back must be those after some session, every value from-scratch for them" } else if mode == "c07" {
-        "random ranked programs (3..10 keys; input/normal/firewall/projection/external; conditional and unordered reads) x sequential histories of sessions and query rounds with restarts (engine dropped, new engine with fresh executors on the same store) at random positions (between any two ops, doubled, before the first op) x cache capacity {1,2,8,64} x write-behind grouping {1,2,3,5,all-at-shutdown} x serialization workers {1,2}; every case is run with and without its restarts; non-trivial = a session after the first round changes an input that had a value (or refreshes); distinct by hash of the case text"
+        "random ranked programs (3..10 keys; input/normal/firewall/projection/external; conditional and unordered reads) x sequential histories of sessions and query rounds with restarts (engine dropped, new engine with fresh executors on the same store) at random positions (between any two ops, doubled, before the first op) x cache capacity {1,2,8,64} x write-behind grouping {1,2,3,5,all-at-shutdown} x serialization workers {1,2}; every case is run with and without its restarts; plus (shard 0, every run) the wide fan-in family: an input / firewall / normal node with N direct dependents, N on both sides of 1024 (1020..1030, 1100; thorough also 1023..1030, 2100, 32, 33), cache capacity {1,8,64,2^18}: set, compute all readers, restart, edit, query all, [restart,] edit, query all; non-trivial = a session after the first round changes an input that had a value (or refreshes); distinct by hash of the case text"
     } else {
-        "random ranked programs (3..10 keys; input/normal/firewall/projection; conditional and unordered reads) x sequential histories (a third with restarts) run to shutdown on DbBacked<KvMem> x cache capacity {1,2,8,64} x grouping {1,2,3,5,all-at-shutdown}; then one engine per prefix of the physical commit log (every boundary; >40 boundaries in the quick tier: 40 sampled) queried for every key in ascending / descending / random order; non-trivial as for C07"
+        "random ranked programs (3..10 keys; input/normal/firewall/projection; conditional and unordered reads) x sequential histories (a third with restarts) run to shutdown on DbBacked<KvMem> x cache capacity {1,2,8,64} x grouping {1,2,3,5,all-at-shutdown}; then one engine per prefix of the physical commit log (every boundary; >40 boundaries in the quick tier: 40 sampled) queried for every key in ascending / descending / random order; plus (shard 0, every run) the wide fan-in family (a key with N direct dependents, N on both sides of 1024): the history is CONTINUED on the engine reopened on the full log and on a few earlier cuts (edit, query all, edit, query all); non-trivial as for C07"
     })));
     rep.push_str(&format!("\"samples\":[{}],", samples.iter().map(|s| jstr(s)).collect::<Vec<_>>().join(",")));
     rep.push_str(&format!("\"distribution\":{{{}}},", dist.iter().map(|(k, v)| format!("{}:{v}", jstr(k))).collect::<Vec<_>>().join(",")));
